@@ -649,7 +649,7 @@ def classify(res, scn, issuer_of=None):
                       "foreign releases %r, orphaned requests granted later %r, still polling %r"
                       % (t["op"], t["pending_nodes"], a["foreign_releases"][:3], a["orphan_acquired"][:3], a["orphans_pending"][:3]))
     shared = shared_consumed_handles(ops)
-    if shared and not hung:
+    if shared and all(k in shared for k in hung):
         return "D17", "operations %r name the same qubit handle and one of them consumes it (send / destructive measurement)" % (shared,)
     # root causes of hangs: follow waits-for edges
     if hung:
